@@ -10,7 +10,11 @@
                                     SetMarkerDenomMetadata (+ keeper/denom.go ValidateDenomMetadata
                                     status test), accountControlsAllSupply
       x/marker/keeper/msg_server.go GrantAllowance, SetAccountData, UpdateSendDenyList,
-                                    UpdateRequiredAttributes, AddNetAssetValues (who may call)
+                                    UpdateRequiredAttributes, AddNetAssetValues (who may call);
+                                    UpdateForcedTransfer, SupplyIncrease/DecreaseProposal,
+                                    Set/RemoveAdministratorProposal, ChangeStatusProposal,
+                                    WithdrawEscrowProposal, SetDenomMetadataProposal (authority test)
+      x/marker/keeper/proposal_handler.go Handle*Proposal (HasGovernanceEnabled test)
 
     The caller's rights are a bit mask: bit i is the Access enum value i+1
     (MINT=1 .. FORCE_TRANSFER=8 in proto/provenance/marker/v1/accessgrant.proto).
@@ -59,11 +63,18 @@ Definition is_restricted (t : mtype) : bool := match t with TRestricted => true 
 Inductive op :=
 | OMint | OBurn | OWithdraw | OFinalize | OActivate | OCancel | ODelete
 | OAddAccess | ODeleteAccess | OSetMetadata | OSetAccountData | OUpdateDenyList
-| OUpdateReqAttrs | OGrantAllowance | OAddNav.
+| OUpdateReqAttrs | OGrantAllowance | OAddNav
+(* governance-only endpoints of the message server (x/marker/keeper/proposal_handler.go) *)
+| OUpdateForcedTransfer | OSupplyIncrease | OSupplyDecrease | OSetAdministrator | ORemoveAdministrator
+| OChangeStatus          (* MsgChangeStatusProposalRequest to the marker's CURRENT status; the
+                            transitions themselves are [life_step] below *)
+| OWithdrawEscrow | OSetMetadataProposal.
 
 Definition all_ops : list op :=
   [OMint; OBurn; OWithdraw; OFinalize; OActivate; OCancel; ODelete; OAddAccess; ODeleteAccess;
-   OSetMetadata; OSetAccountData; OUpdateDenyList; OUpdateReqAttrs; OGrantAllowance; OAddNav].
+   OSetMetadata; OSetAccountData; OUpdateDenyList; OUpdateReqAttrs; OGrantAllowance; OAddNav;
+   OUpdateForcedTransfer; OSupplyIncrease; OSupplyDecrease; OSetAdministrator; ORemoveAdministrator;
+   OChangeStatus; OWithdrawEscrow; OSetMetadataProposal].
 
 (** Everything the access decision reads. *)
 Record cfg := {
@@ -139,6 +150,15 @@ Definition decide_gen (all_supply : cfg -> bool) (c : cfg) (o : op) : outcome :=
   | OAddNav =>
       (* isGovProp := HasGovernanceEnabled && Administrator == authority; otherwise any grant *)
       done ((c_govctl c && c_gov c) || any_right rs)
+  (* msg.Authority must be k.GetAuthority(); the Handle*Proposal functions then demand
+     HasGovernanceEnabled.  No access right of the caller is read. *)
+  | OUpdateForcedTransfer => done (c_gov c && c_govctl c && is_restricted (c_type c))
+  | OSupplyIncrease => done (c_gov c && c_govctl c && st_in s [SProposed; SFinalized; SActive])
+  | OSupplyDecrease | OSetAdministrator | ORemoveAdministrator | OWithdrawEscrow | OSetMetadataProposal =>
+      done (c_gov c && c_govctl c)
+  | OChangeStatus =>
+      (* to the same status: not "preceding"; Destroyed is only reachable from Cancelled *)
+      done (c_gov c && c_govctl c && negb (status_eqb s SDestroyed))
   end.
 
 Definition decide := decide_gen controls_all_supply.                (* the current code *)
@@ -244,6 +264,15 @@ Definition documented (o : op) (s : status) (t : mtype) : requirement :=
   | OAddNav =>
       (* 03_messages Msg/AddNetAssetValues: governance account, or any access on the marker *)
       Needs all_rights [AltGov]
+  | OUpdateForcedTransfer =>
+      (* 03_messages Msg/UpdateForcedTransfer: governance proposal, restricted markers that allow
+         governance control *)
+      if is_restricted t then Needs [] [AltGov] else NotAvailable
+  | OSupplyIncrease | OSupplyDecrease | OSetAdministrator | ORemoveAdministrator | OChangeStatus
+  | OWithdrawEscrow | OSetMetadataProposal =>
+      (* 03_messages / 10_governance: "can only be called via gov proposal", on a marker that
+         allows governance control.  No access right stands in for the governance account. *)
+      Needs [] [AltGov]
   end.
 
 Definition alt_met (c : cfg) (a : alt) : bool :=
